@@ -7,7 +7,7 @@ package forwarder
 //
 //vf:assume C05-pac: PAC result strings are symbolic ASCII strings of length 0..8 (quick) / 0..12 (thorough) without '[' and ']' (so host:port is well formed iff it contains exactly one colon), plus a concrete pool of well-formed answers; the goja evaluation that produces the string is outside (C14)
 //vf:assume C05-func: configuration = none / static upstream (http, https, socks5) / PAC; direct-domains verdict symbolic; proxy-localhost mode direct or allow; targets from a host pool
-//vf:assume C05-connect: the CONNECT path is run through the real connection loop with a recording dial function; what http.Transport does with the proxy URL for plain HTTP requests is outside (the same function object is installed as Transport.Proxy)
+//vf:assume C05-connect: the CONNECT path is run through the real connection loop with a recording dial function, direct or through an http upstream, a socks5 upstream (default and explicit port, real x/net/proxy client) or an unsupported proxy type; what http.Transport does with the proxy URL for plain HTTP requests is outside (the same function object is installed as Transport.Proxy)
 
 import (
 	"context"
@@ -196,22 +196,29 @@ func vfH_C05_proxyfunc() {
 	}
 }
 
-//vf:harness property=C05 nopanic reach=connect-direct,connect-http-upstream,connect-unsupported steps=8000000
+//vf:harness property=C05 nopanic reach=connect-direct,connect-http-upstream,connect-unsupported,connect-socks5-upstream steps=8000000
 func vfH_C05_connect() {
 	// the CONNECT path contacts exactly the selected hop, at the address the configuration maps it to
 	cfg := HTTPProxyConfig{}
 	cfg.Name = "fw"
 	cfg.ProxyLocalhost = AllowProxyLocalhost
-	kind := vfrt.Choice("upstream", 3)
+	kind := vfrt.Choice("upstream", 5)
+	reply := []byte("HTTP/1.1 200 OK\r\n\r\n")
 	switch kind {
 	case 1:
 		cfg.UpstreamProxy, _ = url.Parse("http://up.example:3128")
 	case 2:
 		cfg.UpstreamProxyFunc = func(*http.Request) (*url.URL, error) { return url.Parse("socks4://s.example:1080") }
+	case 3:
+		cfg.UpstreamProxy, _ = url.Parse("socks5://s.example") // default port 1080
+		reply = []byte{5, 0, 5, 0, 0, 1, 0, 0, 0, 0, 0, 0}
+	case 4:
+		cfg.UpstreamProxy, _ = url.Parse("socks5://s.example:1081")
+		reply = []byte{5, 0, 5, 0, 0, 1, 0, 0, 0, 0, 0, 0}
 	}
 	hp := vfNewHTTPProxy(cfg)
 	var dialed []string
-	peer := martian.NewVfConn([]byte("HTTP/1.1 200 OK\r\n\r\n"))
+	peer := martian.NewVfConn(reply)
 	hp.proxy.DialContext = func(_ context.Context, network, addr string) (net.Conn, error) {
 		dialed = append(dialed, addr)
 		return peer, nil
@@ -226,6 +233,17 @@ func vfH_C05_connect() {
 		vfrt.Reach("connect-http-upstream")
 		vfrt.Assert(len(dialed) == 1 && dialed[0] == "up.example:3128", "connect/dials-only-the-upstream-proxy")
 		vfrt.Assert(strings.HasPrefix(peer.Out.String(), "CONNECT origin.example:443 HTTP/1.1\r\n"), "connect/asks-the-upstream-for-the-target")
+	case 3, 4:
+		vfrt.Reach("connect-socks5-upstream")
+		want := "s.example:1080"
+		if kind == 4 {
+			want = "s.example:1081"
+		}
+		vfrt.Assert(len(dialed) == 1 && dialed[0] == want, "connect/dials-only-the-socks5-proxy")
+		out := peer.Out.Bytes()
+		ask := append([]byte{5, 1, 0, 5, 1, 0, 3, 14}, []byte("origin.example")...)
+		ask = append(ask, 0x01, 0xbb)
+		vfrt.Assert(len(out) >= len(ask) && string(out[:len(ask)]) == string(ask), "connect/asks-the-socks5-proxy-for-the-target")
 	case 2:
 		vfrt.Reach("connect-unsupported")
 		vfrt.Assert(len(dialed) == 0, "connect/unsupported-proxy-type-contacts-nobody")
